@@ -202,4 +202,24 @@ theorem wf_is_needed :
     ((run c items []).resps[1]?.map (fun o => match o with | .ok r => r.src | .error _ => []))
       = some [some 0, some 1, some 1] := by decide
 
+/-- `WF` is satisfiable: a parser answer (two result lines, two blank lines) is well formed, and so is the
+same answer cut after its first line by a processor that exits -/
+example : WF { front := .parser, tsdb := false } { text := "a".toList, out := [resL 1, resL 2, blankL, blankL], die := none } := by
+  intro t ts h
+  have : t = .blank ∧ ts = [.blank] := by
+    simp [termini, parserTermini] at h; exact ⟨h.1.symm, h.2.symm⟩
+  obtain ⟨rfl, rfl⟩ := this
+  decide
+
+/-- a concrete session with a failure: the processor exits without answering the second of three inputs;
+the third is answered under run 1 by a restarted processor; two run records exist; close() returns 0 -/
+example :
+    let c : Cfg := { front := .transferer, tsdb := false }
+    let ok (n : Nat) : Item := { text := "[a]".toList, out := [resL n, blankL], die := none }
+    let dead : Item := { text := "[b]".toList, out := [], die := some { code := 3, pol := .race, closeStdin := false } }
+    ((run c [ok 1, dead, ok 2] [true, false]).resps.map (fun o => match o with
+        | .ok r => (r.run, r.isEmpty, r.eof) | .error _ => (99, false, false)))
+      = [(0, false, false), (0, true, true), (1, false, false)]
+    ∧ (run c [ok 1, dead, ok 2] []).runs.length = 2 ∧ (run c [ok 1, dead, ok 2] []).close = 0 := by decide
+
 end Verif.C19
